@@ -10,7 +10,7 @@ import z3
 
 from pyvc import extract as X
 from pyvc import pysem as S
-from pyvc.contract import Contract, KConst, KStr
+from pyvc.contract import Contract, KConst, KCustom, KStr
 from pyvc.pysem import exc
 from pyvc.state import Raise, fresh
 from pyvc.values import *
@@ -25,6 +25,7 @@ ASSUMED = [
     "base64.b64encode(bytes).decode('ascii') does not raise and contains no newline",
     "print(text, flush=True, file=<pipe>) does not raise (a closed pipe is outside the property's quantifier: the reader is alive)",
     "traceback.format_exc(), time.time(), str() / f-string formatting of JSON values do not raise",
+    "main(): sys.stdin.readline() returns the next line (non-empty text) or '' at end of input and does not raise; the loop contract proves partial correctness AND termination (variant: lines not yet read) for every finite input; the `if __name__ == '__main__'` wrapper (signal handlers, asyncio.run) is not under contract (covered by the real-process histories only)",
     "log()/error() are no-ops that do not raise while ENABLE_LOGGING is False (checked: the module assigns ENABLE_LOGGING = False last)",
 ]
 
@@ -395,3 +396,182 @@ def process_histories(rep, tier, seed):
     rep.bounded.update(evaluations=n, distinct_nontrivial=len({tuple(h) for h in hists[:max(1, n // 2)]}),
                        rule="request histories over the alphabet in contracts/daemon_c.py; each history is run with EXIT and with end-of-input; distinct by history")
     rep.samples.extend(hists[len(keys): len(keys) + 3])
+
+
+# ------------------------------------------------------------------------------------------- main(): the request loop
+# stdin is a ghost sequence RAW(0..n-1) of non-empty strings (what readline returns before end of input); the ghost counter
+# `pos` is the number of lines read; `calls` is the ghost list of line indices process_input has been called for.
+RAW = z3.Function("stdin_line", z3.IntSort(), z3.StringSort())
+
+
+def main_world():
+    from pyvc import strings as PS
+    from pyvc.ulist import SymSeq, new_list, seq_of
+
+    def h_readline(eng, st, args, kw, origin):
+        pos, n = st.ghost["pos"], st.ghost["n_lines"]
+        outs = []
+        s1 = eng.branch(st, pos < n)
+        if s1 is not None:
+            s1.assume(z3.Length(RAW(pos)) >= 1)
+            s1.ghost["pos"] = pos + 1
+            outs.append((s1, VStr(RAW(pos))))
+        s0 = eng.branch(st, pos >= n)
+        if s0 is not None:
+            outs.append((s0, VC("")))
+        return outs
+
+    def h_process_input(eng, st, args, kw, origin):
+        eng.use("callee contract mod_daemon.process_input: never raises; writes exactly one reply line for a non-empty argument, none for an empty one (proved separately)")
+        (line,) = args
+        pos = st.ghost["pos"]
+        # the argument is the stripped text of the line read last
+        st.obligations.append(("main#process_input_receives_the_stripped_line", S.to_str_term(line) == PS.UF_STRIP(RAW(pos - 1))))
+        calls = st.ghost["calls"]
+        sq = seq_of(st, calls)
+        st.store[calls.oid]["__sym__"] = SymSeq(sq.n + 1, [z3.Store(sq.cols[0], sq.n, pos - 1)], 0)
+        return [(st, VC(None))]
+
+    w = {}
+    stdin = VMod("sys.stdin", {"readline": VFun("builtin", fn=h_readline, name="sys.stdin.readline")})
+    w["module:sys"] = VMod("sys", {"stdin": stdin})
+    w["sys"] = w["module:sys"]
+    w["process_input"] = VFun("builtin", fn=h_process_input, name="contract:process_input")
+    w["log"] = VFun("builtin", fn=noop, name="log")
+    w["error"] = VFun("builtin", fn=noop, name="error")
+    w["Exception"] = VType("Exception")
+    w["module:traceback"] = VMod("traceback", {"format_exc": VFun("builtin", fn=lambda e, s, a, k, o: [(s, VStr(fresh("tb", z3.StringSort())))], name="format_exc")})
+    return w
+
+
+def strip_of(i):
+    return stdin_line(i).strip()
+
+
+def stdin_line(i):
+    raise NotImplementedError("ghost function: only interpreted symbolically")
+
+
+def _sym_stdin_line(eng, st, args, kw, origin):
+    return [(st, VStr(RAW(S.to_int_term(args[0]))))]
+
+
+stdin_line.__pyvc_symbolic__ = _sym_stdin_line
+
+
+def m_progress(k, pos, calls, n):
+    return 0 <= pos and pos <= n and len(calls) == pos
+
+
+def m_calls_in_order(k, pos, calls, n):
+    return all(calls[j] == j for j in range(len(calls)))
+
+
+def m_no_exit_so_far(k, pos, calls, n):
+    return all(stdin_line(j).strip() != "EXIT" for j in range(pos))
+
+
+def m_variant(k, pos, calls, n):
+    # lines not yet read: every trip round the loop consumes one
+    return n - pos + 1
+
+
+def main_post_every_line_before_exit_is_processed_once_in_order(n, result):
+    """result = (number of lines read, calls): process_input ran exactly once for every line before the first EXIT line
+    (or before end of input), in order, and for no other line"""
+    pos, calls = result
+    served = len(calls)
+    return (all(calls[j] == j for j in range(served)) and all(stdin_line(j).strip() != "EXIT" for j in range(served))
+            and served <= n and (served == n or stdin_line(served).strip() == "EXIT"))
+
+
+def main_post_stops_reading(n, result):
+    # nothing is read beyond the EXIT line; end of input is noticed by reading once more
+    pos, calls = result
+    return pos == len(calls) + (0 if len(calls) == n else 1)
+
+
+_MAIN_PROBE = r"""
+import asyncio, io, json, sys
+from stationeers_pytrapic import mod_daemon as D
+calls = []
+D.process_input = lambda line: calls.append(line)
+sys.stdin = io.StringIO(json.loads(sys.argv[1]))
+asyncio.run(D.main())
+sys.stderr.write("CALLS " + json.dumps(calls) + "\n")
+"""
+
+
+def search_main(clause):
+    """the real main() with a recording process_input and a scripted stdin, in a child process (a hang is a finding too)"""
+    import json
+    import subprocess
+    import sys
+
+    from pyvc.report import REPO
+
+    texts = ["", "a\n", "a\nb\n", "a\n\nb\n", "   \nb\n", "a\nEXIT\nb\n", "EXIT\n", " EXIT \nb\n", "a\nEXITS\nb\n", "a\nb", "\n\n\nq\n", "x\n" * 7, "a\n\t\nEXIT"]
+    env = dict(__import__("os").environ, PYTHONPATH=str(REPO / "src"))
+    for t in texts:
+        lines = t.split("\n")
+        if lines and lines[-1] == "":
+            lines = lines[:-1]
+        want = []
+        for ln in lines:
+            if ln.strip() == "EXIT":
+                break
+            want.append(ln.strip())
+        try:
+            p = subprocess.run([sys.executable, "-c", _MAIN_PROBE, json.dumps(t)], capture_output=True, text=True, timeout=60, env=env, cwd="/")
+        except subprocess.TimeoutExpired:
+            return {"stdin": t}, "main() did not return within 60 s"
+        got = [l for l in p.stderr.splitlines() if l.startswith("CALLS ")]
+        if not got:
+            return {"stdin": t}, f"main() ended abnormally: {p.stderr[-300:]}"
+        calls = json.loads(got[-1][6:])
+        if calls != want:
+            return {"stdin": t}, f"process_input was called with {calls}, expected {want}"
+    return None
+
+
+def main_contract():
+    import ast as _ast
+
+    from pyvc.loops import LoopSpec
+    from pyvc.ulist import SymSeq, new_list
+
+    f = X.find_function(X.module_ast("mod_daemon.py"), "main")
+
+    def mk_n(st, pname):
+        n = fresh("n_lines", z3.IntSort())
+        st.assume(n >= 0)
+        st.ghost["n_lines"] = n
+        st.ghost["pos"] = z3.IntVal(0)
+        st.ghost["calls"] = new_list(st, SymSeq.empty(0))
+        return VInt(n)
+
+    def havoc(eng, st):
+        st.ghost["pos"] = fresh("h_pos", z3.IntSort())
+        st.ghost["calls"] = new_list(st, SymSeq.fresh(st, "h_calls", 0))
+
+    class _G:
+        pass
+
+    def view_main(eng, st, v):
+        return VTuple([VInt(st.ghost["pos"]), st.ghost["calls"]])
+
+    def setup(eng, st, args):
+        eng.uf_patterns = True
+        # ghost values are read by the invariant through the 'ghost:' prefix
+        st.ghost["n"] = args["n"]
+
+    fn = "mod_daemon.main"
+    spec = LoopSpec([m_progress, m_calls_in_order, m_no_exit_so_far], ["ghost:pos", "ghost:calls", "ghost:n"], havoc=havoc, name="loop", variant=m_variant)
+    c = Contract(name="mod_daemon.main", fun=lambda eng: X.vfun(f, fn), params=[("n", [KCustom("stdin: any number of lines, any text", mk_n, lambda m, v: None)])],
+                 ghost=["n"], post={"every_line_before_EXIT_or_EOF_is_processed_once_in_order": main_post_every_line_before_exit_is_processed_once_in_order,
+                                    "reading_stops_at_EXIT_or_EOF": main_post_stops_reading},
+                 raises={}, world=main_world(), loop_specs={f"{fn}@while[True]": spec}, setup=setup, result_view=view_main, search=search_main, timeout=60.0,
+                 describe=dict(X.describe(f, "mod_daemon.py"), track="U: while-loop invariant over the ghost input position and the ghost list of served lines",
+                               extraction_drops=["`async` (the coroutine has no await)", "log()/error() are no-ops (premise checked syntactically)"]))
+    c.feas_timeout_ms = 500
+    return c
